@@ -85,6 +85,7 @@ type Kernel struct {
 	tasks    []*Task
 	parked   []*parked
 	plan     []ParkSpec
+	armed    map[string]bool
 	pcount   map[string]int
 	settling bool
 	viol     *Violation
@@ -325,6 +326,18 @@ func (k *Kernel) SetPlan(plan []ParkSpec) {
 	k.mu.Unlock()
 }
 
+// ArmNext makes the next hit of a yield point park, whatever the plan says (one shot). A
+// task arms a point right before the operation it is about to start, so the park lands
+// inside that operation rather than at the Nth hit by whoever comes along.
+func (k *Kernel) ArmNext(point string) {
+	k.mu.Lock()
+	if k.armed == nil {
+		k.armed = map[string]bool{}
+	}
+	k.armed[point] = true
+	k.mu.Unlock()
+}
+
 // DrawPlan draws a park plan from the tape: depth 0..maxDepth (0 = none), each entry a
 // point from points and an occurrence number 1..maxNth.
 func (k *Kernel) DrawPlan(points []string, maxDepth, maxNth int) []ParkSpec {
@@ -349,6 +362,10 @@ func (k *Kernel) Yield(point, ident string) {
 	k.pcount[point]++
 	n := k.pcount[point]
 	match := k.ParkAll && !k.settling
+	if !k.settling && k.armed[point] {
+		delete(k.armed, point)
+		match = true
+	}
 	if !k.settling && !match {
 		for _, ps := range k.plan {
 			if ps.Point == point && ps.Nth == n {
